@@ -24,7 +24,7 @@ EXPLANATION = (
     "row-set equality on real data; MultiIndex label round trip through str/eval."
 )
 LEVEL_RULE = "one obligation per backend validate / fold step / typestate use"
-FLOORS = {"R1": 5, "R2": 7, "R3": 2, "R4": 5, "R5": 1, "R6": 3, "R7": 3}
+FLOORS = {"R1": 5, "R2": 7, "R3": 2, "R4": 5, "R5": 1, "R6": 3, "R7": 3, "R8": 2, "R9": 1, "R10": 1}
 
 
 def _validates(ix):
@@ -363,6 +363,72 @@ def r7_polars_check_output_is_one_column(ctx):
         raise AnalysisError(f"polars backends: only {n} CoreCheckResult(check_output=...) sites found")
 
 
+def r8_component_errors_reach_the_container(ctx):
+    """A column / index component has its own `drop_invalid_rows` flag.  When it is set the component drops rows from
+    *its* result and raises nothing.  The containers validate their components for the errors only (the component's
+    return value is not the object they go on with), so unless the container switches the flag off on the component it
+    validates, a `Column(..., drop_invalid_rows=True)` inside a DataFrameSchema is neither checked nor dropped: the
+    invalid rows are returned."""
+    from .c08 import PDC, PLC
+    ix = ctx.ix
+    for q in (PDC, PLC):
+        f = ix.cls(q).lookup("run_schema_component_checks")
+        if f is None:
+            raise AnalysisError(f"{q}.run_schema_component_checks missing")
+        ctx.touched(f)
+        flavour = "polars" if "/polars/" in q else "pandas"
+        data = f.positional[1]
+        vals = [c for c in calls_in(f.node) if callee_last(c) == "validate" and isinstance(c.func, ast.Attribute) and c.args
+                and isinstance(c.args[0], ast.Name) and c.args[0].id == data]
+        if not vals:
+            raise AnalysisError(f"{flavour} run_schema_component_checks: component validate call not found")
+        for c in vals:
+            comp = txt(c.func.value)
+            st = enclosing_stmt(c)
+            rebinds = isinstance(st, ast.Assign) and any(isinstance(t, ast.Name) and t.id == data for t in st.targets)
+            off = any(isinstance(x, ast.Assign) and any(isinstance(t, ast.Attribute) and t.attr == "drop_invalid_rows" and txt(t.value) == comp for t in x.targets)
+                      and isinstance(x.value, ast.Constant) and x.value.value is False for x in walk_no_nested(f.node)) \
+                or (kw(c, "drop_invalid_rows") is not None)
+            ok = rebinds or off
+            ctx.ob("R8", f, f"{flavour} container: a component's own drop_invalid_rows cannot swallow its errors", ok,
+                   "the component result becomes the working object" if rebinds else ("the flag is switched off on the validated component" if off else
+                   f"`{txt(c)[:60]}` is used for its errors only, and nothing switches `{comp}.drop_invalid_rows` off: DataFrameSchema({{'a': Column(int, Check.ge(0), "
+                   "drop_invalid_rows=True)}).validate(df with a == -1, lazy=True) returns the invalid row and raises nothing"), f.loc(c))
+
+
+def r9_labels_not_rebuilt_by_eval(ctx):
+    """The labels of the rows to drop are compared with check_obj.index as objects.  Rebuilding MultiIndex labels from
+    their *printed* form with eval() works for tuples of numbers and strings only: a Timestamp or NaN level prints as
+    `Timestamp('...')` / `nan` and eval raises NameError out of validate."""
+    ix = ctx.ix
+    f = ix.func("pandera/backends/pandas/base.py::PandasSchemaBackend.drop_invalid_rows")
+    ctx.touched(f)
+    evals = [x for x in ast.walk(f.node) if isinstance(x, ast.Name) and x.id in ("eval", "literal_eval") and isinstance(x.ctx, ast.Load)]
+    ctx.ob("R9", f, "pandas drop_invalid_rows compares labels as objects (no eval of their printed form)", not evals,
+           "labels used as recorded" if not evals else
+           f"`{txt(getattr(evals[0], '_parent', evals[0]))[:60]}` re-creates MultiIndex labels by evaluating their string form: a (Timestamp, int) or NaN-containing "
+           "MultiIndex with drop_invalid_rows=True raises NameError: name 'Timestamp' / 'nan' is not defined", f.loc(evals[0]) if evals else None)
+
+
+def r10_rows_from_complete_output(ctx):
+    """Which rows to drop has to be computed from the complete verdict of each check (its boolean output), as the polars
+    backend does.  The failure cases are a *report*: Check(n_failure_cases=k) truncates them to the first k and
+    ignore_na removes nulls, so dropping `index.isin(failure_cases['index'])` leaves the other invalid rows in the
+    returned object (and a second validate drops further rows)."""
+    ix = ctx.ix
+    f = ix.func("pandera/backends/pandas/base.py::PandasSchemaBackend.drop_invalid_rows")
+    ex = Expander(f.node)
+    masks = [c for c in calls_in(f.node) if callee_last(c) == "isin" and c.args]
+    if not masks:
+        raise AnalysisError("pandas drop_invalid_rows: no isin(...) mask found")
+    for c in masks:
+        from_report = any(isinstance(x, ast.Attribute) and x.attr == "failure_cases" for d in ex.closure(c.args[0]) for x in ast.walk(d))
+        ctx.ob("R10", f, "pandas drop_invalid_rows takes the rows to drop from the complete check output", not from_report,
+               "labels derive from the check output" if not from_report else
+               f"`{txt(c)[:60]}` takes the labels from err.failure_cases, the (truncatable) report: Column(int, Check.gt(0, n_failure_cases=1)) on [1,-2,-3,4,-5] "
+               "returns [1,-3,4,-5]", f.loc(c))
+
+
 def run(ctx):
     r1_precondition(ctx)
     r2_shape(ctx)
@@ -371,4 +437,7 @@ def run(ctx):
     r5_no_rowwise_dropna_before_reshape(ctx)
     r6_labels_survive_delegation(ctx)
     r7_polars_check_output_is_one_column(ctx)
+    r8_component_errors_reach_the_container(ctx)
+    r9_labels_not_rebuilt_by_eval(ctx)
+    r10_rows_from_complete_output(ctx)
     ctx.assume("Index.isin / DataFrame.loc / LazyFrame.filter have their documented meaning")
